@@ -234,10 +234,28 @@ async def _hostile(rng, desc):
         if own_sid is not None:
             peer.send({'type': 'PAYLOAD', 'sid': own_sid, 'next': True, 'complete': True, 'data': b'own-answer',
                        'metadata': None})
+    # a subsequent request of the real endpoint's own application (either role may issue requests): it must reach
+    # the wire and its answer must reach the caller
+    seen_req = {f['sid'] for f in rw.real_sent() if f['type'] == 'REQUEST_RESPONSE'}
+    later_fut = ep.request_response(make_payload(71, DIR_REQUEST, 0, 10, 0))
+    await asyncio.sleep(0.3)
+    later_sid = None
+    for f in rw.real_sent():
+        if f['type'] == 'REQUEST_RESPONSE' and f['sid'] not in seen_req:
+            later_sid = f['sid']
+    if later_sid is not None:
+        peer.send({'type': 'PAYLOAD', 'sid': later_sid, 'next': True, 'complete': True, 'data': b'later-answer',
+                   'metadata': None})
     await asyncio.sleep(1.0)
     # ---- observations
     obs = {'probes': {}, 'stream': None, 'reaction': [], 'tasks': None, 'own': None, 'closed': rw.handler.close_calls,
            'stimuli': nstim}
+    obs['later'] = later_fut.done() and not later_fut.cancelled() and later_fut.exception() is None and \
+        bytes(later_fut.result().data or b'') == b'later-answer'
+    if not obs['later']:
+        obs['later_detail'] = {'request_frame_sent': later_sid is not None, 'future_done': later_fut.done()}
+        if later_fut.done() and not later_fut.cancelled():
+            later_fut.exception()
     for sid, iid in ((pa, 51), (pb, 52), (pc, 53)):
         got = peer.reassembled(sid)
         dl, ml = specs[iid]['resp']['size']
@@ -258,7 +276,7 @@ async def _hostile(rng, desc):
             continue
         f = e[3]
         sid = f.get('sid', 0)
-        if sid in (pa, pb, pc, ps) or (own_sid is not None and sid == own_sid):
+        if sid in (pa, pb, pc, ps) or (own_sid is not None and sid == own_sid) or (later_sid is not None and sid == later_sid):
             continue
         if f['type'] == 'ERROR' and (sid in targets or sid == 0):
             continue
@@ -283,7 +301,8 @@ async def _hostile(rng, desc):
 
 
 FAILS = ['handler-raise-before-await', 'handler-raise-after-await', 'failed-future', 'publisher-raise-subscribe',
-         'publisher-raise-request', 'publisher-raise-cancel', 'generator-raise-at-k', 'subscriber-raise-on_next',
+         'publisher-raise-request', 'publisher-raise-cancel', 'generator-raise-at-k', 'generator-factory-raises',
+         'subscriber-raise-on_next',
          'subscriber-raise-on_subscribe', 'subscriber-raise-on_complete', 'subscriber-raise-on_error',
          'responder-subscriber-raise-on_next', 'fnf-handler-raise', 'push-handler-raise']
 
@@ -315,6 +334,10 @@ def gen_failing(rng, tier):
     elif fail == 'generator-raise-at-k':
         s.update(model='stream', resp={'elems': [(5, 0)] * rng.choice([0, 1, 3]), 'terminal': 'error',
                                        'source': rng.choice(['gen', 'agen']), 'pacing': ('tick',)},
+                 n0=rng.choice([1, 5]), policy=('refill', 2, 0))
+    elif fail == 'generator-factory-raises':
+        s.update(model='stream', resp={'elems': [], 'terminal': 'error', 'source': rng.choice(['gen', 'agen']),
+                                       'pacing': ('tick',), 'factory_raises': True},
                  n0=rng.choice([1, 5]), policy=('refill', 2, 0))
     elif fail.startswith('subscriber-raise'):
         what = fail.split('-raise-')[1]
@@ -554,7 +577,7 @@ def run_case(gen, idx, rng, tier):
     from .. import vloop, mixgen
     from ..runner import short_hash
     st = {'parser_inputs': 0, 'hostile_stimuli_sent': 0, 'probes_answered': 0, 'failing_entry_points_exercised': 0,
-          'adapter_cases': 0}
+          'adapter_cases': 0, 'failing_requests_judged': 0}
     if gen == 'parser-fuzz':
         n, wit = run_parser_fuzz(rng)
         st['parser_inputs'] = n
@@ -598,6 +621,10 @@ def run_case(gen, idx, rng, tier):
             st['probes_answered'] += 1
         if obs['own'] is False:
             bad('own-request-disturbed')
+        if obs['later'] is not True:
+            bad('subsequent-own-request-not-served', detail=obs.get('later_detail'))
+        else:
+            st['probes_answered'] += 1
         if obs['reaction']:
             bad('reaction-other-than-error-on-offending-stream', frames=obs['reaction'][:6])
         if not all(obs['tasks'].values()):
@@ -633,6 +660,21 @@ def run_case(gen, idx, rng, tier):
         if closes[side]:
             wit.append({'clause': 'connection-closed-by-failing-application-code',
                         'detail': {'endpoint': side, 'failing': fail, 'trace': trace_excerpt(world, 80, 1)[-50:]}})
+    # a failure of the responder's producing code is answered (ERROR on its stream): the requester is not left hanging
+    if fail in ('failed-future', 'handler-raise-before-await', 'handler-raise-after-await', 'publisher-raise-subscribe',
+                'publisher-raise-request', 'generator-raise-at-k', 'generator-factory-raises'):
+        inter = world.inter[1]
+        res = inter.get('result')
+        sub = inter.get('subscriber')
+        # ('pending',) = the requesting application was still waiting at the horizon (10^5 virtual seconds); the
+        # on_error it gets when the harness finally tears the connection down does not count
+        hanging = res is None or res[0] == 'pending'
+        st['failing_requests_judged'] = 1
+        if hanging:
+            wit.append({'clause': 'failing-producer-left-its-requester-hanging',
+                        'detail': {'failing': fail, 'model': specs[0]['model'], 'result': res and list(res),
+                                   'subscriber_log': sub.log[-4:] if sub is not None else None,
+                                   'trace': trace_excerpt(world, 80, 1)[-50:]}})
     # errors must stay on the failing interaction's own stream
     bad_err = []
     for e in world.events:
